@@ -8,6 +8,8 @@ triplet matrix of the spec (weights are integers or dyadic rationals, so float64
 Direct oracle (independent of Coq): for every class of the catalogue (modelled or not) adjointness,
 inverse, linearity, complex-linearity, real/complex probe consistency, target identity, input not
 modified, and the dense matrix against a NumPy reference written from the documented formula."""
+import contextlib
+import io
 import json
 import os
 import re
@@ -114,6 +116,11 @@ def is_complex_linear(R):
 
 def observe(ift, kl, cfg):
     """Build the operator and record capability, shapes and dense matrices per advertised mode."""
+    with contextlib.redirect_stdout(io.StringIO()):      # MatrixProductOperator.apply prints a debug line
+        return _observe(ift, kl, cfg)
+
+
+def _observe(ift, kl, cfg):
     o = {"cls": kl.name, "cfg": cfg}
     try:
         op = kl.build(ift, cfg)
@@ -157,6 +164,11 @@ def rmat_of(kl, p):
 
 def direct(ift, kl, o, op, rng):
     """The property on the implementation, independent of Coq.  Returns (branch, message) or None."""
+    with contextlib.redirect_stdout(io.StringIO()):
+        return _direct(ift, kl, o, op, rng)
+
+
+def _direct(ift, kl, o, op, rng):
     if "build_error" in o:
         return ("construct", "constructing an admissible configuration raised " + o["build_error"])
     pr = o["probe"]
